@@ -515,4 +515,19 @@ theorem run_one_header_row_per_hunk {cfg : Cfg} (hc : HHC cfg) {d : L} {ls : Lis
     rw [this, hs, hn0]
     simp [hacct, hhSrcs, hhTL, ftl, htl0, hp00]
 
+/-- executable form of `FollowedG`, for concrete inputs -/
+def followedGb : Bool → List L → Bool
+  | p, [] => !p
+  | p, l :: rest => (!p || (!l.commitRe && l.text.head?.all bodyChar && l.submodule.isNone)) && followedGb (isHHLine l) rest
+
+theorem followedG_of_b : ∀ (p : Bool) (ls : List L), followedGb p ls = true → FollowedG p ls
+  | p, [], h => by cases p <;> simp_all [followedGb, FollowedG]
+  | p, l :: rest, h => by
+    simp only [followedGb, Bool.and_eq_true, Bool.or_eq_true, Bool.not_eq_true'] at h
+    refine ⟨fun hp => ?_, followedG_of_b _ rest h.2⟩
+    rcases h.1 with h1 | h1
+    · rw [hp] at h1; cases h1
+    · refine ⟨⟨h1.1.1, h1.1.2⟩, ?_⟩
+      cases hs : l.submodule <;> simp_all
+
 end Machine
